@@ -70,8 +70,15 @@ def run(ctx):
     exe = build.build("c08_match", ["c08_match.cpp"], ["ebus", "utils"])
     sample = 12000 if ctx.thorough else 0
     t0 = time.time()
-    g = tlc.run("C08Gen", "C08Gen.cfg", env={"VF_TIER": ctx.tier, "VF_OUT": gen, "VF_SAMPLE": sample, "VF_SEED": ctx.seed},
-                workers=12, timeout=900, heap="12g", tag="C08-gen")
+    if ctx.replay_path:      # re-run one recorded case instead of generating the domain
+        with open(ctx.replay_path) as f:
+            case = json.load(f)["replay"]["case"]
+        with open(os.path.join(gen, "replay0.ndjson"), "w") as f:
+            f.write(json.dumps(case, separators=(",", ":")) + "\n")
+        g = {"vf": [["VF", "SHARD", "replay", 0, 1]]}
+    else:
+        g = tlc.run("C08Gen", "C08Gen.cfg", env={"VF_TIER": ctx.tier, "VF_OUT": gen, "VF_SAMPLE": sample, "VF_SEED": ctx.seed},
+                    workers=12, timeout=900, heap="12g", tag="C08-gen")
     shards = {}
     for v in g["vf"]:
         if len(v) >= 5 and v[1] == "SHARD":
